@@ -815,6 +815,84 @@ def load_npoints(h):
              note=repr({nm: (made[0].vals.get(nm, '<not assigned>') if v is None else '...') for nm, v in values.items()}))
 
 
+@unit('C03', 'load-trajectory.each-file-read-with-its-own-species-list', [TS + '._load_trajectory'], replay='contracts.C03:replay_two_files')
+def load_species_per_file(h):
+    """_read_from_nc_var's precondition - `species` is the species list of the file the variable lives in (slot k of the
+    variable is species[k]) - checked at its call sites in _load_trajectory: a store with a base file and an associated file,
+    each with its own species list (any two of the representative lists, also of different lengths, also one of them empty)."""
+    I, Species, TM, sp, tm, dm, Dimensions = enums(h)
+    d_ts = I.call(Dimensions, [dm['TRAJECTORY'], dm['SPECIES']], {})
+    d_tp = I.call(Dimensions, [dm['TRAJECTORY'], dm['POINT']], {})
+    keys = sorted(SPECIES_LISTS)
+    lists = {}
+    for fsn in ('base', 'assoc'):
+        ki = h.choice(len(keys) + 1)                       # the last choice: a file without a species dimension
+        lists[fsn] = [sp[nm] for nm in SPECIES_LISTS[keys[ki]]] if ki < len(keys) else []
+        h.ctx.named['species_of_' + fsn] = z3.StringVal(','.join(m.name for m in lists[fsn]))
+    n = h.int('n_points')
+    h.assume(n >= 1)
+    fields = {'base': [('points', FieldStub(d_tp)), ('base_species_field', FieldStub(d_ts))],
+              'assoc': [('assoc_species_field', FieldStub(d_ts))]}
+    pts = SArr.symbolic(h.ctx, 'points', n)
+
+    class Fs(Model):
+        def __init__(self, name):
+            self.name = name
+
+        def py_getattr(self, I_, name):
+            if name == 'items':
+                return Builtin('items', lambda: list(fields[self.name]))
+            raise Unsupported('FieldSet.' + name)
+    h.summary('AEIC.storage.field_sets:FieldSet.from_registry', lambda I_, fi, a, k: Fs(a[-1]))
+
+    class Var(Model):
+        def __init__(self, owner):
+            self.owner = owner
+
+    class G(Model):
+        def __init__(self, owner):
+            self.vars = {nm: Var(owner) for nm, f in fields[owner]}
+
+        def py_getattr(self, I_, name):
+            if name == 'variables':
+                return self.vars
+            raise Unsupported('Group.' + name)
+    log = []
+
+    def read(I_, fi, a, k):
+        log.append((a[1], a[3], a[5]))
+        return pts if a[3] == 'points' else None
+    h.summary(TS + '._read_from_nc_var', read)
+    NcFiles = I.lookup_fq(TS + '.NcFiles')
+    nc = {}
+    for fsn in ('base', 'assoc'):
+        nc[fsn] = I.call(NcFiles, [], dict(path=[fsn + '.nc'], fieldsets={fsn}, dataset=[None], traj_dim=[None], traj_var=[None],
+                                           species=(list(lists[fsn]) if lists[fsn] else None), groups={fsn: [G(fsn)]}, size_index=None))
+
+    class T(Model):
+        def py_setattr(self, I_, name, val):
+            pass
+
+        def py_getattr(self, I_, name):
+            if name == 'nbytes':
+                return 8
+            if name == 'add_fields':
+                return Builtin('add_fields', lambda fs: None)
+            raise Unsupported('Trajectory.' + name)
+    I.models['new:AEIC.trajectories.trajectory:Trajectory'] = lambda I_, cls, npoints=None, **kw: T()
+    st = h.new(TS, _partial=True, _nc=nc, _trajectories={})
+    try:
+        h.method(st, '_load_trajectory', 0)
+    except PyExc as e:
+        h.fail('trajectory-can-be-loaded', f'{e.inst!r} at {e.inst.where}')
+        return
+    h.ensure('every-field-of-every-file-is-read', sorted(nm for v, nm, s_ in log) == sorted(nm for fsn in fields for nm, f in fields[fsn]))
+    bad = [(nm, v.owner, [m.name for m in (s_ or [])]) for v, nm, s_ in log
+           if not isinstance(v, Var) or [m.name for m in (s_ or [])] != [m.name for m in lists[v.owner]]]
+    h.ensure('each-variable-is-read-with-the-species-list-of-its-own-file', not bad,
+             note=f'(field, file, species list passed): {bad}; file lists: ' + str({k: [m.name for m in v] for k, v in lists.items()}))
+
+
 def later_species(h, expect_accept):
     I, Species, TM, sp, tm, dm, Dimensions = enums(h)
     st = make_store_obj(h)
